@@ -380,6 +380,14 @@ func run(c Case) (res result) {
 			viol("generator-cost-differs-from-verifier-cost", fmt.Sprintf("pool transaction %d (%s): EstimateTransactionCostFee budgets it at %d, EstimateTransactionCost (verifier, promoted loop) at %d", ix, fname(c.Txns[ix]), inf.gcost, inf.cost))
 		}
 	}
+	for i, tok := range origin {
+		if fromPool[i] {
+			cd := res.now0 + c.Txns[tok].DateOff
+			if cd < res.bdate-600 || cd > res.bdate+600 {
+				viol("generator-admitted-outside-block-time-tolerance", fmt.Sprintf("pool transaction %d created at block date %+d s is in the block although |block creation date - txn creation date| > 600 s (verifiers measure the tolerance against the block's creation date)", tok, cd-res.bdate))
+			}
+		}
+	}
 	seen := map[string]bool{}
 	for _, t := range b.Txns {
 		if seen[t.Hash] {
@@ -599,6 +607,19 @@ func genCase(r *vh.Rand, maxPool int) Case {
 	}
 	c.Cfg = conch.Cfg{TransferCost: tc, FutureNonce: r.Range(1, 20), MaxByteSize: 1 << 20, BatchSize: r.Range(1, 5),
 		MaxBlockCost: sum + r.Range(-1, 1), Exempt: []string{"pour", "wait"}}
+	// clock skew: the previous block's creation date is ahead of / behind the local clock, so the
+	// block's creation date differs from "now"; creation dates of some transactions sit at both
+	// edges of the tolerance measured from the block's creation date
+	c.Cfg.PrevSkew = r.Pick64([]int64{0, 0, -3, -1, 2, 5, 8})
+	base := c.Cfg.PrevSkew
+	if base < 0 {
+		base = 0
+	}
+	for i := range c.Txns {
+		if r.Chance(1, 6) {
+			c.Txns[i].DateOff = base + r.Pick64([]int64{-600, 600}) + int64(r.Range(-2, 2))
+		}
+	}
 	if r.Chance(1, 3) {
 		// fees on: payFees built-in, ValidateFee against max(MinTxnFee, estimated fee = cost), fee paid to the miner contract
 		c.Cfg.FeeEnabled = true
@@ -833,6 +854,29 @@ func main() {
 		Order: []int{0, 1, 2}})
 	for i := 0; i < o.N(80, 800); i++ {
 		handle(genPromo(rnd))
+	}
+	// almost expired transactions with a previous block ahead of the local clock
+	for _, sk := range []int64{5, 2, -3} {
+		handle(Case{Cfg: conch.Cfg{MaxBlockCost: 1000, TransferCost: 10, FutureNonce: 20, MaxByteSize: 1 << 20, BatchSize: 2, PrevSkew: sk},
+			Accts: []conch.Acct{{Client: 1, Nonce: 0, Bal: 1 << 40}, {Client: 2, Nonce: 0, Bal: 1 << 40}},
+			Txns: []TxnSpec{{Client: 1, Nonce: 1, Kind: 1, CostK: 5, DateOff: -598}, {Client: 2, Nonce: 1, Kind: 1, CostK: 5, DateOff: 603}, {Client: 1, Nonce: 2, Kind: 1, CostK: 5, DateOff: -10}},
+			Order: []int{0, 1, 2}})
+	}
+	for i := 0; i < o.N(40, 400); i++ {
+		sk := rnd.Pick64([]int64{-5, 1, 3, 5, 9})
+		base := sk
+		if base < 0 {
+			base = 0
+		}
+		cs := Case{Cfg: conch.Cfg{MaxBlockCost: 1000, TransferCost: 10, FutureNonce: 20, MaxByteSize: 1 << 20, BatchSize: rnd.Range(1, 3), PrevSkew: sk}}
+		n := rnd.Range(2, 6)
+		for k := 1; k <= n; k++ {
+			cs.Accts = append(cs.Accts, conch.Acct{Client: k, Nonce: 0, Bal: 1 << 40})
+			cs.Txns = append(cs.Txns, TxnSpec{Client: k, Nonce: 1, Kind: 1, CostK: 5,
+				DateOff: base + rnd.Pick64([]int64{-600, -600, 600, 0}) + int64(rnd.Range(-3, 3))})
+			cs.Order = append(cs.Order, k-1)
+		}
+		handle(cs)
 	}
 	// fee-exempt contract calls against a tight budget, fees off and on
 	for _, fe := range []bool{false, true} {
